@@ -32,7 +32,7 @@ var c07Dispatch = map[string]map[string]string{
 		`lookup-ok(Schema.Types[Name()])`:       "the kind of a field type is tested when the type exists (existence was checked before)",
 	},
 	"validateDirectives": {
-		`param != nil`:                                "the directive being defined, when there is one (self-reference test)",
+		`param == nil`:                                "the directive being defined, when there is one (self-reference test)",
 		`? == param`:                                  "location membership scan",
 		`ArgumentDefinition.DefaultValue == nil`:      "required argument = non-null type without default",
 		`ArgumentDefinition.Type->Type.NonNull`:       "required argument = non-null type without default",
@@ -136,6 +136,9 @@ func sortedKeys(m map[string]string) []string {
 func canonDispatch(d string) string {
 	d = strings.TrimPrefix(d, "!")
 	d = strings.Replace(d, " != \"", " == \"", 1)
+	if strings.HasSuffix(d, " != nil") {
+		d = strings.TrimSuffix(d, " != nil") + " == nil"
+	}
 	return d
 }
 
